@@ -189,6 +189,10 @@ def get_tensor_name_to_content_map(
     # Don't return temporary, unnamed tensors
     if not tensor_detail["name"]:
       continue
+    # A tensor without elements (e.g. the empty shape operand of a reshape to a
+    # scalar) has no content; the interpreter refuses to return it.
+    if 0 in tensor_detail["shape"]:
+      continue
     tensors[tensor_detail["name"]] = get_tensor_data(
         tflite_interpreter, tensor_detail, subgraph_index, dequantize
     )
